@@ -439,6 +439,9 @@ impl Prop for C12 {
     fn id(&self) -> &'static str {
         "C12"
     }
+    fn fuzz_target(&self) -> Option<&'static str> {
+        Some("tape")
+    }
     fn rule(&self) -> String {
         "stateful, model-based: tape-decoded histories of up to 300 Context construction calls (symbols with reused names, literals built by seven routes incl. baa add/not/shift arithmetic, every operator builder, slices/extensions with their documented normalisations, array constants/stores/reads, ite, Value::Array literals) interleaved with bulk insertions of 1k-60k fresh nodes and re-issues of earlier calls; shadow map structural-key -> ExprRef and back: known key => identical ref, new key => ref never seen before; periodic audit: every ref ever obtained reads back with the recorded structure, type and name; get_true/get_false fixed and equal to every 1-bit literal 1/0; is_true/is_false agree with the value. Non-trivial: history with a rebuild of an existing key after >= 1000 other insertions and >= 1 wide (>64 bit) literal produced by two different routes; distinct by hash of the tape.".into()
     }
